@@ -354,6 +354,10 @@ class EditDistance(SequenceEdit):
                     pass
                 assert self.is_complete()
                 if self.__edits is None:
+                    # The lower right cell is the only one that is not fully tightened while the matrix is built;
+                    # its cost must be definitive before it is accumulated into the final cost below
+                    while self.edit_matrix[-1][-1].tighten_bounds():
+                        pass
                     assert len(self.edit_matrix) == len(self.to_seq) + 1
                     assert len(self.edit_matrix[0]) == len(self.from_seq) + 1
                     row, col = len(self.to_seq), len(self.from_seq)
